@@ -16,7 +16,8 @@ def groups(n, seed):
             pk["active_set_type"] = ActiveSetType.Explicit
             pk["active_set_tau"] = float(rng.uniform(0.1, 2.0))
         if i % 3 == 0:
-            ps = ("boxdomain", int(rng.integers(0, 2 ** 31)), int(rng.integers(2, 5)), int(rng.integers(0, 3)), {})
+            ps = ("boxdomain", int(rng.integers(0, 2 ** 31)), int(rng.integers(2, 5)), int(rng.integers(0, 3)),
+                  {"int_cons_bounds": bool(i % 2)})
         elif i % 3 == 1:
             ps = ("convex_qp", int(rng.integers(0, 2 ** 31)), int(rng.integers(2, 6)), int(rng.integers(0, 4)),
                   {"var_kinds": None})
